@@ -68,7 +68,7 @@ def main():
                 ovf = f"{cw}/.ov.json"
                 json.dump(ov, open(ovf, "w"))
                 race = ["-race"] if os.environ.get("SEED_RACE") else []  # demonstrations of data races need the race detector
-                rc, o = run(["go", "test", "-vet=off", "-count=1"] + race + ["-overlay", ovf, "-run", "TestZZDemo", "./" + pkgdir], cw)
+                rc, o = run(["go", "test", "-vet=off", "-count=1"] + race + ["-overlay", ovf, "-run", "TestZZDemo|TestSeed", "./" + pkgdir], cw)
                 res[d] = rc
                 meta["ran"].append({"cmd": f"go test -run TestZZDemo ./{pkgdir} ({tag})", "exit": rc, "tail": o[-400:]})
                 os.remove(f"{cw}/{d}")
